@@ -96,6 +96,10 @@ class EventChannel(BaseEventChannel):
                 )
             except Exception:
                 _LOGGER.exception("Failed to handle message on event channel")
+                # Data that cannot be parsed will never become parsable, so drop
+                # it instead of trying again forever
+                self.buffer = b""
+                break
 
 
 class DataStreamListener(ABC):
